@@ -294,6 +294,10 @@ def run_case(case):
     if nat >= 2 and rng.random() < 0.7:
         atoms[1] = atoms[0]
         classes.append("mol:repeated-element")
+    if nat >= 3 and len(els) >= 2 and rng.random() < 0.6:
+        other = [e for e in els if e != atoms[0]][0]
+        atoms[1], atoms[2] = other, atoms[0]  # the same element on non-adjacent atoms (H O H)
+        classes.append("mol:repeated-non-adjacent")
     coords = rng.normal(size=(nat, 3)) * 2
     nshell = sum(len(bd[a]) for a in atoms)
     want_types = [str(rng.choice(["cartesian", "spherical", "c", "p"])) for _ in range(nshell)]
